@@ -520,7 +520,7 @@ def run_history(env, h, want_lines=True):
                 limit -= 1
                 if h["target"] == "ice":
                     # a block the download loop can always place once the unread data is gone
-                    do(["feed", max(1, min(h.get("blk", 4), h["size"] - h["headroom"]))])
+                    do(["feed", max(1, min(max(h.get("blk", 4), dn), h["size"] - h["headroom"]))])
                 tok = do([verb, dn])
                 if not tok.startswith("d:"):
                     break
@@ -685,9 +685,12 @@ def run(ctx, only=None):
             check_histories(ctx, env, only, "sync")
             return
         check_histories(ctx, env, [dict(w) for w in WITNESSES], "sync")
-        n = ctx.scale(2200, 9000)
+        n = ctx.scale(8000, 80000)
         g = rng.fork("histories")
-        check_histories(ctx, env, [build_history(env, g, ctx.thorough) for _ in range(n)], "sync")
+        while n > 0:
+            m = min(n, 4000)
+            check_histories(ctx, env, [build_history(env, g, ctx.thorough) for _ in range(m)], "sync")
+            n -= m
         gb = rng.fork("production-sizes")
         check_histories(ctx, env, [build_history(env, gb, ctx.thorough, big=True) for _ in range(ctx.scale(16, 60))], "sync")
     finally:
